@@ -98,7 +98,119 @@ def search_single_thread_prefetch(rep):
             'bound': 'n in {0,1,3,6}, buffer in {1,2,4}, every failing position, Exception and BaseException'}
 
 
-SEARCHES = {'lazy_parallel_map': search_lazy_parallel_map, 'single_thread_prefetch': search_single_thread_prefetch}
+def _with_watchdog(fn, timeout=8.0):
+    """run fn() in a helper thread; -> ('ok', result) | ('hang', None)"""
+    box = {}
+
+    def run():
+        try:
+            box['r'] = fn()
+        except BaseException as e:  # noqa
+            box['r'] = ('exc', type(e).__name__)
+    t = threading.Thread(target=run, daemon=True)
+    t.start()
+    t.join(timeout)
+    if t.is_alive():
+        return 'hang', None
+    return 'ok', box.get('r')
+
+
+def search_readahead(make, label, bound_of):
+    """slow consumer: after every received item wait for the producer side to settle and record
+    pulled - delivered; make(n, b, log) -> iterator"""
+    cases = 0
+    for n, b in itertools.product((8, 20), (1, 2, 3, 5)):
+        cases += 1
+        log = []
+        it = iter(make(n, b, log))
+        worst = 0
+        delivered = 0
+        try:
+            for _ in range(min(n, 6)):
+                next(it)
+                delivered += 1
+                time.sleep(0.15)
+                pulled = len(log)
+                worst = max(worst, pulled - delivered)
+        finally:
+            st, _ = _with_watchdog(lambda: it.close())
+        if worst > bound_of(b):
+            return {'reproduced': True, 'cases_searched': cases, 'class': label,
+                    'scenario': '%s with n=%d buffer_size=%d, consumer pausing 0.15 s after each item' % (label, n, b),
+                    'mismatches': [{'clause': 'read-ahead', 'observed': 'pulled-delivered=%d' % worst,
+                                    'expected': '<= %d' % bound_of(b)}]}
+    return {'reproduced': False, 'cases_searched': cases, 'class': label,
+            'bound': 'n in {8,20}, buffer in {1,2,3,5}, first 6 items, 0.15 s settle time'}
+
+
+def search_stop(make, label):
+    """stop after k items by close(): must return (no deadlock), leave no extra thread"""
+    cases = 0
+    for n, b in itertools.product((0, 1, 3, 6), (1, 2, 4)):
+        for k in range(0, n + 1):
+            cases += 1
+            base = threading.active_count()
+
+            def run():
+                it = iter(make(n, b, None))
+                for _ in range(k):
+                    next(it)
+                it.close()
+                return True
+            st, r = _with_watchdog(run)
+            time.sleep(0.05)
+            extra = threading.active_count() - base
+            if st == 'hang' or (extra > 0 and st == 'ok' and _settle(base)):
+                return {'reproduced': True, 'cases_searched': cases, 'class': label,
+                        'scenario': '%s n=%d buffer_size=%d close() after %d items' % (label, n, b, k),
+                        'mismatches': [{'clause': 'stop', 'observed': 'hang' if st == 'hang' else 'threads alive: %d' % extra,
+                                        'expected': 'returns, threads exited'}]}
+    return {'reproduced': False, 'cases_searched': cases, 'class': label,
+            'bound': 'n in {0,1,3,6}, buffer in {1,2,4}, every stop point'}
+
+
+def _settle(base, timeout=2.0):
+    t0 = time.time()
+    while time.time() - t0 < timeout:
+        if threading.active_count() <= base:
+            return False
+        time.sleep(0.05)
+    return True
+
+
+def search_single_thread_prefetch_prop(rep):
+    from lazy_dataset.parallel_utils import single_thread_prefetch
+    prop = rep.get('property')
+    if prop == 'C07':
+        return search_readahead(lambda n, b, log: single_thread_prefetch(_source(n, log=log), b),
+                                'single_thread_prefetch', lambda b: b + 2)
+    if prop == 'C05':
+        r = search_stop(lambda n, b, log: single_thread_prefetch(_source(n), b), 'single_thread_prefetch')
+        if r['reproduced']:
+            return r
+    return search_single_thread_prefetch(rep)
+
+
+def search_lazy_parallel_map_prop(rep):
+    from lazy_dataset.parallel_utils import lazy_parallel_map
+    prop = rep.get('property')
+
+    def f(x):
+        return x * 10
+    if prop == 'C07':
+        return search_readahead(lambda n, b, log: lazy_parallel_map(f, _source(n, log=log), buffer_size=b,
+                                                                    max_workers=min(2, b), backend='t'),
+                                'lazy_parallel_map', lambda b: b + 2)
+    if prop == 'C05':
+        r = search_stop(lambda n, b, log: lazy_parallel_map(f, _source(n), buffer_size=b, max_workers=1, backend='t'),
+                        'lazy_parallel_map')
+        if r['reproduced']:
+            return r
+    return search_lazy_parallel_map(rep)
+
+
+SEARCHES = {'lazy_parallel_map': search_lazy_parallel_map_prop,
+            'single_thread_prefetch': search_single_thread_prefetch_prop}
 
 
 def search(cls, meth, rep):
